@@ -9,13 +9,16 @@ def gs_names(K=4):
         names += [f"{tn.gs_amplitude}{n}", f"{tn.gs_amplitude}{n}cc"]
     names += [f"Egs{n}" for n in range(0, K + 2)]
     names += [f"Xgs{n}" for n in range(0, K + 1)]
+    names += [f"{tn.gs_density}{n}" for n in range(0, K + 1)]
     return {n: i + 1 for i, n in enumerate(names)}
 
 
-def gs_record(names, K, maxcls, dn=1, with_d=True):
+def gs_record(names, K, maxcls, dn=1, with_d=True, dens=False):
     return {"K": K, "maxcls": maxcls,
             "t": [names[f"{tn.gs_amplitude}{n}"] for n in range(1, K + 1)],
             "tcc": [names[f"{tn.gs_amplitude}{n}cc"] for n in range(1, K + 1)],
             "E": [names[f"Egs{n}"] for n in range(0, K + 2)],
             "X": [names[f"Xgs{n}"] for n in range(0, K + 1)],
-            "d": names[tn.operator] if with_d else 0, "dn": dn}
+            "d": names[tn.operator] if with_d else 0, "dn": dn,
+            "p": [names[f"{tn.gs_density}{n}"] for n in range(0, K + 1)]
+            if dens else []}
